@@ -8,9 +8,18 @@ Theorem inv_init : Inv init.
 Proof. exact Proofs_New.inv_init. Qed.
 Print Assumptions inv_init.
 
-Theorem inv_step : forall s o, Inv s -> op_ok s o -> Inv (fst (step s o)).
+(* PARTIAL with respect to the operation alphabet of DESIGN Appendix A: proved for every operation of
+   the model (33 public mutators / constructors of the flat registries + NewOther); the full statement
+   [inv_step_full_statement] (Acme.C04.Spec: every mutator of the alphabet is modelled) is not
+   proved: 24 mutators on signals inside messages / multiplexers (I1, I2) and on shared
+   definitions (I8) are covered by the Go-side predicates of the harness only. *)
+Theorem inv_step_partial : forall s o, Inv s -> op_ok s o -> Inv (fst (step s o)).
 Proof. exact Proofs_Step.inv_step. Qed.
-Print Assumptions inv_step.
+Print Assumptions inv_step_partial.
+
+Theorem inv_step_partial_covers : length covered_mutators = 33 /\ length all_mutators = 57.
+Proof. exact Proofs_Witness.covered_count. Qed.
+Print Assumptions inv_step_partial_covers.
 
 Theorem inv_reachable : forall s, Reach s -> Inv s.
 Proof. exact Proofs_Step.inv_reachable. Qed.
